@@ -39,6 +39,16 @@ func TestMain(m *testing.M) {
 type Stored struct {
 	Folder string  `json:"folder"` // in out sent archive
 	Msg    ref.Msg `json:"msg"`
+	// Ext: spelling of the file's extension (default ".b2f"); the mailbox lists message files case-insensitively,
+	// so a file copied in by other software or through a case-folding file system may be called X.B2F
+	Ext string `json:"ext,omitempty"`
+}
+
+func (s Stored) ext() string {
+	if s.Ext != "" {
+		return s.Ext
+	}
+	return mailbox.Ext
 }
 
 type Case struct {
@@ -49,8 +59,20 @@ type Case struct {
 	MID    string   `json:"mid,omitempty"`
 	Folder string   `json:"folder,omitempty"`
 	Unread bool     `json:"unread,omitempty"`
+	// set_sent: the peer rejected the proposal (it already has the message); SetSent(mid, true)
+	Rejected bool   `json:"rejected,omitempty"`
 	Seed   uint64   `json:"seed"` // for the sampled prefix lengths of large writes
 	Shape  string   `json:"shape,omitempty"`
+}
+
+// targetExt is the extension spelling of the stored file the operation works on (set_unread, set_sent).
+func (c Case) targetExt() string {
+	for _, s := range c.Stored {
+		if s.Msg.MID == c.MID && (s.Folder == c.Folder || (c.Op == "set_sent" && s.Folder == "out")) {
+			return s.ext()
+		}
+	}
+	return mailbox.Ext
 }
 
 func (c Case) opMID() string {
@@ -342,7 +364,11 @@ func continueAfter(dir string, c Case, exp expectation, nstate int) (sig, msg st
 		toggle := func(folder string, want []byte, gone []string, seq ...bool) {
 			for i, u := range seq {
 				full = i == len(seq)-1
-				m, err := mailbox.OpenMessage(filepath.Join(dir, folder, mid+mailbox.Ext))
+				ext := mailbox.Ext
+				if c.Op == "set_unread" {
+					ext = c.targetExt() // the stored file keeps its name
+				}
+				m, err := mailbox.OpenMessage(filepath.Join(dir, folder, mid+ext))
 				if err != nil {
 					fail("open-fails", "OpenMessage(%s/%s): %v", folder, mid, err)
 					return
@@ -405,7 +431,7 @@ func continueAfter(dir string, c Case, exp expectation, nstate int) (sig, msg st
 				return
 			}
 			if len(got["out"][mid]) == 1 {
-				h.SetSent(mid, false)
+				h.SetSent(mid, c.Rejected)
 			}
 			if !verify("SetSent("+mid+")", "sent", want, -1, "out") {
 				return
@@ -505,7 +531,7 @@ func run(c Case) (sig, msg string, st stats, herr error) {
 			}
 		}
 		for _, s := range c.Stored {
-			if err := os.WriteFile(filepath.Join(root, s.Folder, s.Msg.MID+".b2f"), s.Msg.Bytes(), 0o644); err != nil {
+			if err := os.WriteFile(filepath.Join(root, s.Folder, s.Msg.MID+s.ext()), s.Msg.Bytes(), 0o644); err != nil {
 				return "", "", st, problem("%v", err)
 			}
 		}
@@ -560,7 +586,7 @@ func run(c Case) (sig, msg string, st stats, herr error) {
 	}
 
 	// the operation, once, for real, under strace
-	spec := mboxrun.Spec{Mbox: root, Prepare: true, MID: c.MID, Folder: c.Folder, Unread: c.Unread}
+	spec := mboxrun.Spec{Mbox: root, Prepare: true, MID: c.MID, Folder: c.Folder, Unread: c.Unread, Rejected: c.Rejected, Ext: c.targetExt()}
 	spec.Op = c.Op
 	if c.Msg != nil {
 		spec.Msg = c.Msg.Bytes()
@@ -757,7 +783,14 @@ func genCase(t *rapid.T) Case {
 		}
 		for i := 0; i < k; i++ {
 			n++
-			m := genMsg(t, fmt.Sprintf("ST%s%07d", strings.ToUpper(f[:1]), n), 1500, fmt.Sprintf("st%d", n))
+			mid := fmt.Sprintf("ST%s%07d", strings.ToUpper(f[:1]), n)
+			switch rapid.IntRange(0, 7).Draw(t, "mid_shape") {
+			case 0:
+				mid = fmt.Sprintf("S%s.T%d", strings.ToUpper(f[:1]), n) // a dot inside
+			case 1:
+				mid = fmt.Sprintf("N%d%s.b2f", n, f[:1]) // the store's own extension inside the identifier
+			}
+			m := genMsg(t, mid, 1500, fmt.Sprintf("st%d", n))
 			switch f {
 			case "in":
 				if rapid.IntRange(0, 2).Draw(t, "unread") > 0 {
@@ -770,7 +803,11 @@ func genCase(t *rapid.T) Case {
 				// what an earlier SetUnread left in the file
 				m.Extra = append(m.Extra, [2]string{"X-Filepath", "/home/op/.wl2k/mailbox/N0CALL/" + f + "/" + m.MID + ".b2f"})
 			}
-			c.Stored = append(c.Stored, Stored{Folder: f, Msg: m})
+			st := Stored{Folder: f, Msg: m}
+			if f != "out" && rapid.IntRange(0, 5).Draw(t, "ext_case") == 0 {
+				st.Ext = rapid.SampledFrom([]string{".B2F", ".B2f"}).Draw(t, "ext")
+			}
+			c.Stored = append(c.Stored, st)
 		}
 	}
 	pick := func(f string) Stored {
@@ -784,7 +821,7 @@ func genCase(t *rapid.T) Case {
 	}
 	switch c.Op {
 	case "process_inbound", "add_out":
-		mid := "NEWMSG000001"
+		mid := rapid.SampledFrom([]string{"NEWMSG000001", "NEWMSG000001", "NEWMSG000001", "NEW.MSG00001", "NOTE.b2f", "A.b2f.b2f", "x"}).Draw(t, "new_mid")
 		if rapid.IntRange(0, 4).Draw(t, "mid_elsewhere") == 0 {
 			// a message to oneself: the same MID may already live in another folder
 			other := "sent"
@@ -807,6 +844,7 @@ func genCase(t *rapid.T) Case {
 		}
 	case "set_sent":
 		c.MID = pick("out").Msg.MID
+		c.Rejected = rapid.Bool().Draw(t, "rejected")
 	case "set_unread":
 		c.Folder = rapid.SampledFrom([]string{"in", "in", "in", "out", "sent", "archive"}).Draw(t, "folder")
 		has := false
